@@ -148,6 +148,13 @@ func c01Witnesses() []c01Witness {
 			Doc: wDoc(J{"/a": J{"get": wOp("getA", J{"parameters": []interface{}{J{"$ref": "#/components/parameters/Levels"}, J{"$ref": "#/components/parameters/Filter"}}})}},
 				J{"parameters": J{"Levels": J{"name": "levels", "in": "query", "schema": J{"type": "array", "items": J{"type": "string", "enum": []interface{}{"low", "high"}}}},
 					"Filter": J{"name": "filter", "in": "query", "content": J{"application/json": J{"schema": J{"type": "object", "properties": J{"tags": J{"type": "array", "items": J{"type": "string", "enum": []interface{}{"a", "b"}}}}}}}}}})},
+		// additional properties whose value schema needs types of its own one level further down (an array of inline
+		// objects, an array of an inline enum): those types are declared
+		{Name: "additional-properties-array-of-inline-objects",
+			Doc: wDoc(J{}, J{"schemas": J{"Item": J{"type": "object", "properties": J{"id": J{"type": "string"}},
+				"additionalProperties": J{"type": "array", "items": J{"type": "object", "properties": J{"a": J{"type": "string"}}, "additionalProperties": J{"type": "integer"}}}},
+				"Tagged": J{"type": "object", "properties": J{"id": J{"type": "string"}},
+					"additionalProperties": J{"type": "array", "items": J{"type": "string", "enum": []interface{}{"x", "y"}}}}}})},
 		{Name: "leading-digit-schema-with-nested-map",
 			Doc: wDoc(J{}, J{"schemas": J{"1st": objWith(J{"count": J{"type": "object", "properties": J{"n": J{"type": "string"}}, "additionalProperties": J{"type": "integer"}}})}})},
 	}
